@@ -17,7 +17,7 @@ BUILTIN_NAMES = {
 SPEC_FUNCS = {'implies', 'len_of', 'pulled', 'maxidx', 'len_called', 'failed_probe', 'neg_probes',
               'imax', 'imin', 'is_none', 'iff', 'stack_unchanged', 'level_of', 'field',
               'stack_extra', 'same', 'truthy_', 'isinst', 'strlen', 'contains_', 'trace_calls',
-              'data_len', 'finished', 'iter_pos', 'iter_len', 'iter_elem', 'list_prefix_of_iter', 'val_is'}
+              'data_len', 'finished', 'iter_pos', 'iter_len', 'iter_elem', 'list_prefix_of_iter', 'val_is', 'pulled_initial'}
 
 LIST_METHODS = {'append', 'pop', 'sort', 'reverse', 'insert', 'extend', 'index', 'count', 'copy',
                 'remove', 'clear'}
@@ -146,6 +146,12 @@ def bi_len(E, args, kwargs, node):
     if isinstance(v, VT):
         return VC(len(v.items))
     if isinstance(v, VSeq):
+        if v.ghost is not None and E.cur_contract is not None and getattr(E.cur_contract, 'lazy_len', False) \
+                and not E.spec_mode and E.depth == E.cur_contract._depth0:
+            # C12: len() of a lazily produced sequence exhausts it; only allowed once a probe has failed
+            E.oblige(E.cur_contract.key + '::C12.len_only_when_exhausted', v.ghost['pulled'] >= v.length, kind='safety',
+                     detail='len(sequence) is called only after a probe beyond the end has exhausted the iterator '
+                            '(so a batch of an unbounded iterator terminates)')
         if v.ghost is not None:
             v.ghost['len_called'] = True
             v.ghost['len_calls'] = v.ghost.get('len_calls', 0) + 1
